@@ -17,13 +17,13 @@ CLAIMS = {
               'populations, all registers); members of a group are exactly the lights reporting it; operands joined by `and` '
               'share one delay. Forward simulation (Lang/Simulation.v, Simulation2.v, Simulation3.v, SimulationTop.v) is proved for every program made of register '
               'settings, unit switches, assignments, print / println, wait, set / on / off of all lights or lists of lights, groups and '
-              'locations, if / else, begin-end blocks, `repeat while`, counted `repeat n`, `repeat with v from a to b`, `repeat n with v from a to b`, `repeat n with v cycle` and endless `repeat` loops, `break`, routine definitions at the top level, calls `f a b ...` of routines that do not reach themselves (arguments ordinary values) and `return`, nested to any depth -- values any ordinary rvalue or call-free numeric expression of any size -- and every population: WHENEVER the reference '
+              'locations, if / else, begin-end blocks, `repeat while`, counted `repeat n`, `repeat with v from a to b`, `repeat n with v from a to b`, `repeat n with v cycle` and endless `repeat` loops, `break`, routine definitions at the top level, calls `f a b ...` of routines (arguments ordinary values; routines may call each other and themselves, to any depth) and `return`, nested to any depth -- values any ordinary rvalue or call-free numeric expression of any size -- and every population: WHENEVER the reference '
               'semantics runs the source to its end with events evs, the code of the compiler model, loaded and run on the machine model '
               'from the initial state, finishes with exactly evs (and statement by statement for code anywhere in an image, inside any enclosing loops). For '
-              'the loops over lights, calls inside expressions, recursive routines, zones and matrix blocks the agreement of reference semantics, compiler, loader and machine models with each '
+              'the loops over lights, calls inside expressions, zones and matrix blocks the agreement of reference semantics, compiler, loader and machine models with each '
               'other and with the implementation is established per run by the oracle and correspondence comparisons, i.e. by testing, over '
               '~400 (quick) / ~6000 (thorough) scripts.'),
-        note=COMMON_NOTE + 'Partial: the simulation theorem covers programs with if / else, `repeat while`, `repeat n`, endless `repeat`, `break`, non-recursive routines called as statements and `return` (no index or light variable, no calls inside expressions) only; arithmetic outside the modelled range (libm, rgb, ints beyond 2^53 with floats) is skipped and counted; device layer = repository fakes.',
+        note=COMMON_NOTE + 'Partial: the simulation theorem covers programs with if / else, `repeat while`, `repeat n`, endless `repeat`, the three loop forms with an index variable, `break`, routines (recursive ones too) called as statements and `return` (no light variable, no calls inside expressions) only; arithmetic outside the modelled range (libm, rgb, ints beyond 2^53 with floats) is skipped and counted; device layer = repository fakes.',
         technique='Coq reference semantics + machine/compiler models; lemmas by induction; oracle and correspondence by vm_compute evaluation of generated cases',
         design='DESIGN.md 7 C01'),
     'C05': dict(
@@ -35,7 +35,7 @@ CLAIMS = {
               'abstraction proved to cover all 32 op codes). The checker is evaluated in Coq on the image the REAL compiler and loader '
               'produce for every generated script (translation validation, including routines defined inside branches and loops). '
               'Loader theorems: the image is jump + routine blocks + all other instructions in order; the distance the code generator '
-              'counts with equals the distance in the loaded main segment. For the structured fragment of the simulation theorem (covered statements, if / else, blocks, while / counted / endless loops, break, calls of non-recursive routines, return; Lang/Simulation3.v) it is a theorem over all such programs and all condition values that control arrives where the source says -- behind the statement, at the END_LOOP of the innermost loop on a break, behind the call on a return -- with the stack the statement was entered with and frames that differ at most in the dictionary of the routine in progress; the loader theorem of Lang/SimulationTop.v places every routine body where the routine table says.'),
+              'counts with equals the distance in the loaded main segment. For the structured fragment of the simulation theorem (covered statements, if / else, blocks, while / counted / indexed / endless loops, break, calls of routines including recursive ones, return; Lang/Simulation3.v) it is a theorem over all such programs and all condition values that control arrives where the source says -- behind the statement, at the END_LOOP of the innermost loop on a break, behind the call on a return -- with the stack the statement was entered with and frames that differ at most in the dictionary of the routine in progress; the loader theorem of Lang/SimulationTop.v places every routine body where the routine table says.'),
         note=COMMON_NOTE + 'The soundness theorem is about the machine model (tied to Machine.run by correspondence C on every run); that the compiler only produces checked images is established per generated script by running the checker, not by a theorem over all scripts.',
         technique='Coq-verified checker (soundness by induction over reachable states) + translation validation of real images',
         design='DESIGN.md 7 C05'),
@@ -68,8 +68,8 @@ CLAIMS = {
               'recursive, as argument or operand) returns with the caller\'s parameters and locals unchanged (induction on fuel); return '
               'ends the call from any depth and delivers its value. Refinement of the machine\'s call stack to that scoping: reads '
               '(get_variable), writes (put_variable on settled frames), loop frames transparent, a frame under construction invisible, '
-              'return pops exactly the loop frames of the current call. Whole calls: for every call statement of a non-recursive routine with a covered body (Lang/Simulation3.v, call_simulation; C01 for whole programs) the compiled CTX / PARAM / JSR / END_CTX sequence and the routine code run on the machine model exactly as the reference semantics says, arguments evaluated in the caller\'s scope, parameters by value in the routine\'s own dictionary, return from any loop depth, the caller\'s stack and frames as they were. Oracle/correspondence runs on routine-heavy generated scripts.'),
-        note=COMMON_NOTE + 'The link from the refinement lemmas to whole-program behaviour is proved for call statements of non-recursive routines with covered bodies (C01 lists the covered statement forms); recursive routines, calls inside expressions and the loops over lights are compared per run.',
+              'return pops exactly the loop frames of the current call. Whole calls: for every call statement of a routine, all routine bodies covered, recursion and mutual recursion included (Lang/Simulation3.v, call_simulation, by induction on the fuel of the reference run; C01 for whole programs) the compiled CTX / PARAM / JSR / END_CTX sequence and the routine code run on the machine model exactly as the reference semantics says, arguments evaluated in the caller\'s scope, parameters by value in the routine\'s own dictionary, return from any loop depth, the caller\'s stack and frames as they were. Oracle/correspondence runs on routine-heavy generated scripts.'),
+        note=COMMON_NOTE + 'The link from the refinement lemmas to whole-program behaviour is proved for call statements of routines with covered bodies, recursive or not (C01 lists the covered statement forms); calls inside expressions and the loops over lights are compared per run.',
         technique='Coq refinement lemmas (call stack vs scope spec) + induction on fuel over the reference semantics; oracle and correspondence runs',
         design='DESIGN.md 7 C03'),
     'C04': dict(
